@@ -92,6 +92,7 @@ func (r *Report) Check(cond bool, rule, construct, pos, okDetail, failDetail str
 	return cond
 }
 func (r *Report) Note(format string, a ...any) { r.Notes = append(r.Notes, fmt.Sprintf(format, a...)) }
+func (r *Report) Assume(s string) { r.Assumptions = append(r.Assumptions, s) }
 
 // ---- known findings ----
 
